@@ -48,13 +48,20 @@ package matcher
 //@
 //@ func (gTrue).Match
 //@   requires !nonNull(Matcher(p))
+//@   ensures [c29.true] n == 0 && result == nil && err == nil
 //@ func (gWS).Match
 //@   requires !nonNull(Matcher(p))
 //@ func (gString).Match
 //@ func (*gToken).Match
 //@   requires p != nil
+//@   ensures [c29.token-succeeds-iff] (err == nil) == (len(src) > 0 && src[0].Tok == p.tok)
+//@   ensures [c29.token-result] err == nil ==> n == 1 && result == any(src[0])
+//@   ensures [c29.token-failure] err != nil ==> n == 0 && result == nil
 //@ func (*gLiteral).Match
 //@   requires p != nil
+//@   ensures [c29.literal-succeeds-iff] (err == nil) == (len(src) > 0 && src[0].Tok == p.Tok && src[0].Lit == p.Lit)
+//@   ensures [c29.literal-result] err == nil ==> n == 1 && result == any(src[0])
+//@   ensures [c29.literal-failure] err != nil ==> n == 0 && result == nil
 //@
 //@ func (*Choices).Match
 //@   requires p != nil && len(p.stops) == len(p.options) && len(p.options) >= 1
@@ -73,6 +80,8 @@ package matcher
 //@   requires forall i in 0..len(p.items) :: p.items[i] != nil && wfM(p.items[i]) &&
 //@             (rank(p.items[i]) < rank(Matcher(p)) || (exists j in 0..i :: nonNull(p.items[j])))
 //@   requires nonNull(Matcher(p)) ==> exists j in 0..len(p.items) :: nonNull(p.items[j])
+//@   ensures [c29.sequence-n-element-list] err == nil || isDyn(err) ==> istype(result, []any) && len(result.([]any)) == len(p.items) && fresh(result.([]any))
+//@   ensures [c29.sequence-static-failure] err != nil && !isDyn(err) ==> result == nil
 //@ loop (*gSequence).Match#1
 //@   invariant 0 <= n && n <= len(src) && len(rets) == len(p.items) && fresh(rets)
 //@   invariant (exists j in 0..rangeindex+1 :: nonNull(p.items[j])) ==> n >= 1
@@ -80,6 +89,8 @@ package matcher
 //@
 //@ func (*gRepeat0).Match
 //@   requires p != nil && p.r != nil && wfM(p.r) && rank(p.r) < rank(Matcher(p)) && !nonNull(Matcher(p))
+//@   ensures [c29.repeat0-never-fails] err == nil || isDyn(err)
+//@   ensures [c29.repeat0-list] istype(result, []any) && fresh(result.([]any))
 //@ loop (*gRepeat0).Match#1
 //@   invariant 0 <= n && n <= len(old(src)) && src == old(src)[n:] && fresh(rets)
 //@   invariant okErr(err) && (err == nil || isDyn(err))
@@ -87,18 +98,58 @@ package matcher
 //@
 //@ func (*gRepeat1).Match
 //@   requires p != nil && p.r != nil && wfM(p.r) && rank(p.r) < rank(Matcher(p)) && (nonNull(Matcher(p)) ==> nonNull(p.r))
+//@   ensures [c29.repeat1-list] result != nil ==> istype(result, []any) && len(result.([]any)) >= 1 && fresh(result.([]any))
+//@   ensures [c29.repeat1-success-has-list] err == nil ==> result != nil
 //@ loop (*gRepeat1).Match#1
-//@   invariant 0 <= n && n <= len(src) && fresh(rets)
+//@   invariant 0 <= n && n <= len(src) && fresh(rets) && len(rets) >= 1
 //@   invariant nonNull(Matcher(p)) ==> n >= 1
 //@   invariant okErr(err) && (err == nil || isDyn(err))
 //@   decreases len(src) - n
 //@
 //@ func (*gRepeat01).Match
 //@   requires p != nil && p.r != nil && wfM(p.r) && rank(p.r) < rank(Matcher(p)) && !nonNull(Matcher(p))
+//@   ensures [c29.option-never-fails] err == nil
 //@
 //@ func (*gAdjoin).Match
 //@   requires p != nil && p.a != nil && p.b != nil && wfM(p.a) && wfM(p.b) && rank(p.a) < rank(Matcher(p)) && (nonNull(Matcher(p)) ==> nonNull(p.a))
+//@   ensures [c29.adjoin-pair] result != nil ==> istype(result, []any) && len(result.([]any)) == 2 && fresh(result.([]any))
+//@   ensures [c29.adjoin-touching] result != nil ==> n >= 2 && (exists k in 1..n :: types.tokEnd(src[k-1]) == src[k].Pos)
 //@
 //@ func (*Var).Match
 //@   option pure_funcs yes
 //@   requires p != nil && (p.Elem != nil ==> wfM(p.Elem) && (nonNull(Matcher(p)) ==> nonNull(p.Elem)))
+//@
+//@ # ---- C29: constructors (what the compiler builds for each grammar operator) ----
+//@ func Sequence
+//@   assigns nothing
+//@   ensures [c29.sequence-ctor] istype(result, *gSequence) && result.(*gSequence) != nil && fresh(result.(*gSequence)) && result.(*gSequence).items == items
+//@ func Repeat0
+//@   assigns nothing
+//@   ensures [c29.repeat0-ctor] istype(result, *gRepeat0) && result.(*gRepeat0) != nil && fresh(result.(*gRepeat0)) && result.(*gRepeat0).r == r
+//@ func Repeat1
+//@   assigns nothing
+//@   ensures [c29.repeat1-ctor] istype(result, *gRepeat1) && result.(*gRepeat1) != nil && result.(*gRepeat1).r == r
+//@ func Repeat01
+//@   assigns nothing
+//@   ensures [c29.repeat01-ctor] istype(result, *gRepeat01) && result.(*gRepeat01) != nil && result.(*gRepeat01).r == r
+//@ func Adjoin
+//@   assigns nothing
+//@   ensures [c29.adjoin-ctor] istype(result, *gAdjoin) && result.(*gAdjoin) != nil && result.(*gAdjoin).a == a && result.(*gAdjoin).b == b
+//@ func Choice
+//@   assigns nothing
+//@   ensures [c29.choice-ctor] result != nil && fresh(result) && result.options == options && len(result.stops) == 0
+//@ func Token
+//@   assigns nothing
+//@   ensures [c29.token-ctor] istype(result, *gToken) && result.(*gToken) != nil && result.(*gToken).tok == tok
+//@ func Literal
+//@   assigns nothing
+//@   ensures [c29.literal-ctor] istype(result, *gLiteral) && result.(*gLiteral) != nil && result.(*gLiteral).Tok == tok && result.(*gLiteral).Lit == lit
+//@ # R1 % R2 is R1 *(R2 R1): a two-element sequence whose second element is a repetition of two-element sequences, hence
+//@ # the two-level result [r, [[sep, r], ...]] that tpl.List/BinaryOp consume (C30's shapeList)
+//@ func List
+//@   assigns nothing
+//@   ensures [c29.list-is-r1-then-repeated-r2-r1] istype(result, *gSequence) && len(result.(*gSequence).items) == 2 && result.(*gSequence).items[0] == a &&
+//@            istype(result.(*gSequence).items[1], *gRepeat0) && istype(result.(*gSequence).items[1].(*gRepeat0).r, *gSequence) &&
+//@            len(result.(*gSequence).items[1].(*gRepeat0).r.(*gSequence).items) == 2 &&
+//@            result.(*gSequence).items[1].(*gRepeat0).r.(*gSequence).items[0] == b &&
+//@            result.(*gSequence).items[1].(*gRepeat0).r.(*gSequence).items[1] == a
